@@ -252,7 +252,9 @@ def ceremony_release(prev_name, new_name, ps, rs, existing):
     zs[1:8] = [[lastz[-1]]] * 7
     zs[8] = [lastz[-1], ZSKS[0]]
     req = skrgen.honest_request("new", T0 + D(days=90), 9, zs, ksrxml.default_zsk_policy(), sign=True)
-    d = tempfile.mkdtemp(prefix="c09-", dir=str(vlib.WORK))
+    d = os.path.join(str(vlib.WORK), "c09-ceremony")        # one place for every ceremony of this run: the previous SKR is whatever is at that path now
+    shutil.rmtree(d, ignore_errors=True)
+    os.mkdir(d)
     try:
         paths = {n: os.path.join(d, n + ".xml") for n in ("ksr", "prev", "out")}
         open(paths["ksr"], "w").write(ksrxml.render_ksr(req))
